@@ -232,6 +232,30 @@ def rule_modified_implies_hook(check, rule="MODIFIED-HOOK"):
     from .prov import return_exprs
 
     pvb = Prov(prog, opaque={"get_dd_call_expr", "dd_global_method_invocation"})
+
+    def namespace_call(root):
+        """an `Expr::Call(CallExpr { callee: dd_global_method_invocation(..), .. })` built in place"""
+        if not (root[0] == "ctor" and root[1].endswith("Expr::Call") and len(root) >= 5):
+            return False
+        g_ = prog.by_def.get(root[2])
+        try:
+            node = g_.by_id(root[3]) if g_ else None
+        except KeyError:
+            node = None
+        if node is None:
+            return False
+        subs = list(hir.walk(node))
+        for a_ in (node.get("args") or []):
+            l_ = hir.local_of(hir.peel_transparent(a_))
+            b_ = g_.bindings().get(l_[0]) if l_ else None
+            if b_ and b_["origin"][0] == "let" and b_["origin"][1] is not None:
+                subs += list(hir.walk(b_["origin"][1]))
+        for lit in [x for x in subs if x.get("k") == "Struct" and (x["res"].get("path") or "").endswith("CallExpr")]:
+            for fl in lit["fields"]:
+                if fl["name"] == "callee" and any(rr[0] == "call" and rr[1].split("::")[-1] == "dd_global_method_invocation" for rr, _ in pvb.origins(g_, fl["e"], root[4])):
+                    return True
+        return False
+
     gp = prog.fn("visitor_util::get_dd_paren_expr")
     for r in return_exprs(gp.body):
         os_ = pvb.origins(gp, r)
@@ -239,14 +263,16 @@ def rule_modified_implies_hook(check, rule="MODIFIED-HOOK"):
         for root, proj in os_:
             if root[0] == "call" and root[1].split("::")[-1] == "get_dd_call_expr":
                 kinds.add("hook call")
+            elif namespace_call(root):
+                kinds.add("hook call (built in place)")
             elif root[0] == "ctor" and root[1].endswith("Expr::Paren"):
                 kinds.add("parenthesised sequence ending in the hook call")
             else:
                 kinds.add("NOT-A-HOOK: " + origin_str((root, proj)))
         bad = sorted(k for k in kinds if k.startswith("NOT-A-HOOK"))
         check.expect(not bad and bool(kinds), rule, rule + "/builder/get_dd_paren_expr", hir.loc(r), "returns %s" % sorted(kinds), "the hook builder get_dd_paren_expr can return something that is not a hook (%s) while its callers report the result as instrumented" % ", ".join(bad))
-    gc = prog.fn("visitor_util::get_dd_call_expr")
-    for r in return_exprs(gc.body):
+    gc = prog.fn_opt("visitor_util::get_dd_call_expr")
+    for r in (return_exprs(gc.body) if gc is not None else []):
         os_ = pvb.origins(gc, r)
         ok = bool(os_)
         for root, proj in os_:
